@@ -335,6 +335,7 @@ func init() {
 				{Harness: "zzverif/zzh.ZZC08AllCheckers", GlobalWriteMonitor: true, Setup: mapOrders, Desc: "all checkers on the all-codes program with EVERY iteration order of every native map of <=3 entries explored as nondeterminism: the diagnostics (position, code) are the same under every order; shared-state monitor on", Bounds: map[string]interface{}{"map_orders": "all permutations of maps with <= 3 entries (larger maps: one order)"}},
 				{Harness: "zzverif/zzh.ZZC11Messages", GlobalWriteMonitor: true, Setup: mapOrders, Desc: "TEXT of PKGO01/PKGO02 for allow-lists with repeated entries over two annotation lines, under every iteration order of every native map with <= 3 entries: the allowed packages are listed in written order", Bounds: map[string]interface{}{"spellings": "3 x 2 x 2"}},
 				{Harness: "zzverif/zzh.ZZC11Commute", GlobalWriteMonitor: true, Desc: "two package actions with look-alike inputs (same-named packages and interfaces at different import paths) run in either order in one process: each package's diagnostics are those of analysing it alone (catches process-wide caches with colliding keys)", Bounds: map[string]interface{}{"orders": 2}},
+				{Harness: "zzverif/zzh.ZZC01Basic", GlobalWriteMonitor: true, Desc: "shared-state monitor over reading and checking a package with @immutable structs whose fields carry doc comments (@mutable), a type group, every write form: no store to package-level state outside sync.Once / a held lock (field-annotation reading has its own use of the shared keyword matcher)", Bounds: map[string]interface{}{"skeleton": "c01SrcD"}},
 				{Harness: "zzverif/zzh.ZZC04Cross", GlobalWriteMonitor: true, Setup: mapOrders, Tier: "thorough", Desc: "packageonly index and allow-lists under all map iteration orders", Bounds: map[string]interface{}{}},
 			},
 			Outside: []string{"real goroutine interleavings inside the drivers and race-detector runs; data races in x/tools itself: not encodable (the claim decided here is: no shared mutable state besides the once-initialised configuration, and results independent of map iteration order; by sync.Once's happens-before guarantee whole-package actions then commute)",
